@@ -12,6 +12,7 @@ import (
 
 type splitClient struct {
 	BaseClient
+	InlinePredicates
 	p        *Program
 	fn       string
 	source   types.Object
